@@ -634,9 +634,31 @@ def patch(sim, shim):
                             plan.append((v, ck, "rlock-instance"))
                         elif ck == "_global" and hasattr(cv, "clear"):
                             plan.append((v, ck, "singleton-cache"))
+                        elif getattr(type(cv), "__module__", "").startswith("reactivex") and hasattr(cv, "__dict__"):
+                            plan.append((cv, None, "shared-instance"))  # a class-level object of the library (shared by every user of the class)
+                elif getattr(type(v), "__module__", "").startswith("reactivex") and hasattr(v, "__dict__") and not isinstance(v, type) and not callable(v):
+                    plan.append((v, None, "shared-instance"))  # a module-level object of the library
         _PATCH_PLAN, _PATCH_NMODS = plan, nmods
     saved = []
     for obj, k, what in _PATCH_PLAN:
+        if what == "shared-instance":
+            # real primitives inside an object built at import time: a simulated thread parked while it holds one would block the
+            # next for real (the baton would be lost).  Replaced for the run, a Condition on top of its replaced lock.
+            swapped = {}
+            inner = [(ik, iv) for ik, iv in list(vars(obj).items())]
+            for ik, iv in inner:
+                if isinstance(iv, _REAL_LOCK_TYPE) or isinstance(iv, _REAL_RLOCK_TYPE):
+                    swapped[id(iv)] = shim.Lock() if isinstance(iv, _REAL_LOCK_TYPE) else shim.RLock()
+                    saved.append((obj, ik, iv))
+                    setattr(obj, ik, swapped[id(iv)])
+            for ik, iv in inner:
+                if isinstance(iv, threading.Condition):
+                    saved.append((obj, ik, iv))
+                    setattr(obj, ik, shim.Condition(swapped.get(id(iv._lock))))
+                elif isinstance(iv, threading.Event):
+                    saved.append((obj, ik, iv))
+                    setattr(obj, ik, shim.Event())
+            continue
         if what == "singleton-cache":
             # process-global singleton caches (ImmediateScheduler, CurrentThreadScheduler, TimeoutScheduler): start every run
             # from the same state, otherwise the first run of a process executes "create the singleton" lines the others do not
